@@ -221,6 +221,10 @@ var C19GoodDomains = []C19DomainPat{
 	{`\.test$`, "a.test"},
 	{`^(.+\.)?example\.org$`, "www.example.org"},
 	{`[0-9]+\.cdn\.example$`, "42.cdn.example"},
+	// patterns that match the TEXT of an address literal: the pattern list is applied to the host the
+	// client sent, whatever kind of host it is (appended last: the fixed states above keep their entries)
+	{`^169\.254\.`, "169.254.169.254"},
+	{`^::ffff:`, "::ffff:8.8.8.8"},
 }
 
 // C19BadDomains do not compile as Go regular expressions.
@@ -321,7 +325,8 @@ func c19DomainKey(base string) C19Key {
 	for _, d := range C19GoodDomains {
 		all = append(all, d.Pattern)
 	}
-	k.States = append(k.States, c19V("localhost", c19List("localhost")), c19V("three", c19List(all[1], all[2], all[4])), c19V("all", c19List(all...)))
+	k.States = append(k.States, c19V("localhost", c19List("localhost")), c19V("three", c19List(all[1], all[2], all[4])), c19V("all", c19List(all...)),
+		c19V("literal-v4", c19List("localhost", all[8])), c19V("literal-mapped", c19List(all[9], all[3])))
 	for _, b := range C19BadDomains {
 		k.States = append(k.States, C19State{Label: "regex:" + b, Lit: c19List(all[1], b), Kind: "regex"})
 	}
